@@ -398,7 +398,7 @@ func (w *world) finalChecks() {
 	}
 	// C11: a fresh node replays the whole chain served from an existing node's archive
 	src := w.upNodes()[0]
-	fresh := w.newNode(len(w.nodes), w.actors[len(w.actors)-1].key, "fresh")
+	fresh := w.newNode(len(w.nodes), w.pickKeyOf("ed25519").key, "fresh")
 	w.nodes = append(w.nodes, fresh)
 	if c.T.Chance(1, 2) {
 		w.readAPIs(src)
@@ -439,4 +439,13 @@ func (w *world) levelUp() {
 			w.syncFrom(n, top, top.height()-1)
 		}
 	}
+}
+
+func (w *world) pickKeyOf(kind string) *actor {
+	for _, a := range w.actors {
+		if a.kind == kind && !a.isVal {
+			return a
+		}
+	}
+	return w.actors[len(w.actors)-1]
 }
